@@ -159,7 +159,15 @@ def run(res):
     if bad:
         res.violations = [v for v in res.violations if not v["no_input"]] if False else res.violations
     seen = set()
+    import re as _re
+    from vcheck import known_findings as _kf
+    kf_ids = {f["id"]: f for f in _kf().get("findings", []) if f.get("property") == "C03"}
+    n_kf1 = 0
     for (e, d, msg, gv, rv) in bad:
+        if ("KF-C03-1" in kf_ids and msg.startswith("generated code throws") and "instanceof" in msg
+                and _re.search(r"(&&|\|\||\?\?|\?)", e["wxml"]) and _re.search(r"\[[^\]]*instanceof|instanceof[^\[]*\?", e["wxml"])):
+            n_kf1 += 1      # KF-C03-1: a hoisted `instanceof` throws where JavaScript short-circuits
+            continue
         key = (e["shape"], msg[:40])
         if key in seen and len(seen) > 8:
             continue
@@ -167,6 +175,8 @@ def run(res):
         res.violation("C03 value differential: {{ %s }} with data %s: %s (generated=%s reference=%s)" % (
             e["wxml"], json.dumps(d)[:300], msg, json.dumps(gv)[:200], json.dumps(rv)[:200]),
             {"wxml": e["wxml"], "src": e["src"], "reference_js": e["ref"], "data": d, "generated": gv, "reference": rv})
+    if n_kf1:
+        res.known.append("KF-C03-1: %s (%d evaluations of this class in this run)" % (kf_ids["KF-C03-1"]["what"], n_kf1))
     # the parser model behind C03_source_parentheses_honoured: implementation = model on generated / mutated values
     import valparse
     rv = valparse.run(res.tier, res.seed, "C03")
